@@ -840,15 +840,29 @@ func healCorpus() []*healCase {
 func genHealCase(r *lib.Rng, i int) *healCase {
 	opts := healBuildOpts{MaxDirs: 6, MaxFiles: 6, MaxLinks: 3}
 	class := "small"
-	if i%6 == 5 {
+	switch {
+	case i%6 == 5:
 		opts = healBuildOpts{MaxDirs: 4, MaxFiles: 3, MaxLinks: 1, Blocky: 2}
 		class = "blocky"
+	case i%40 == 7:
+		// many entries: the healer lags behind the validator, the wound channel fills up
+		opts = healBuildOpts{MaxDirs: 30, MaxFiles: 120, MaxLinks: 20}
+		class = "wide"
 	}
 	signed := genHealBuild(r, opts)
+	if class == "wide" {
+		for len(signed) < 100 { // the ranges above are upper bounds: insist on many entries
+			signed = genHealBuild(r, opts)
+		}
+	}
 	hc := &healCase{Signed: signed, Procs: []int{1, 2, 16}}
 	cur := validTree(signed)
 	asideN := 0
-	switch mode := i % 12; {
+	mode := i % 12
+	if class == "wide" {
+		mode = []int{2, 6, 9, 1}[(i/40)%4]
+	}
+	switch {
 	case mode == 0:
 		class += "/valid"
 	case mode == 1:
@@ -864,10 +878,15 @@ func genHealCase(r *lib.Rng, i int) *healCase {
 		if mode >= 6 {
 			n = r.Range(2, 4)
 		}
+		if class == "wide" {
+			n = r.Range(10, 40)
+		}
 		kinds := map[string]bool{}
 		for k := 0; k < n; k++ {
 			kind := r.Intn(healDamageKinds)
-			if mode%3 == 0 && k == 0 {
+			if mode < 6 {
+				kind = ((i/12)*3 + mode - 3) % healDamageKinds // every damage kind on its own, in turn
+			} else if mode%3 == 0 && k == 0 {
 				kind = 8 + r.Intn(4) // subtree-hiding swap first
 			}
 			d := damageOnce(r, signed, cur, &asideN, kind)
@@ -884,13 +903,15 @@ func genHealCase(r *lib.Rng, i int) *healCase {
 			ks = append(ks, k)
 		}
 		sort.Strings(ks)
-		if len(ks) == 1 {
+		switch {
+		case len(hc.Damages) == 0:
+			class += "/valid"
+		case len(hc.Damages) == 1:
 			class += "/" + ks[0]
-		} else {
+		case class == "wide":
+			class += "/combo-many"
+		default:
 			class += fmt.Sprintf("/combo%d", len(hc.Damages))
-		}
-		if len(hc.Damages) == 0 {
-			class = strings.SplitN(class, "/", 2)[0] + "/valid"
 		}
 	}
 	hc.Class = class
